@@ -159,9 +159,12 @@ def finish(prop, tier, level, merged_list, t0, rule_text, assumptions, extra_cov
         "wall_s": round(time.time() - t0, 2),
         "violations": n_new,
     }
-    os.makedirs(os.path.join(base.VERIF, "evidence"), exist_ok=True)
-    with open(os.path.join(base.VERIF, "evidence", f"{prop}.json"), "w") as f:
-        json.dump(ev, f, indent=1, default=_js)
+    if os.environ.get("VSGMC_LIST_IDS") or os.environ.get("VSGMC_SKIP_IDS"):
+        print("calibration run (partial universe): no evidence written")
+    else:
+        os.makedirs(os.path.join(base.VERIF, "evidence"), exist_ok=True)
+        with open(os.path.join(base.VERIF, "evidence", f"{prop}.json"), "w") as f:
+            json.dump(ev, f, indent=1, default=_js)
     print(
         f"{prop} [{tier}] evaluations={evaluations} nontrivial={len(nontrivial)} states={len(states)} transitions={transitions} "
         f"effective={effective} violation_keys={len(viol)} known={n_known} new={n_new} wall={ev['wall_s']}s exhaustive={cov['exhaustive']}"
